@@ -61,3 +61,6 @@ def run(ctx):
     from . import c09 as _c09
 
     _c09.edge_evaluators(ctx)  # (tools/wiring.py) sparse forms and projections integrate space.evaluate of RWG / SNC bases
+    from .. import state as _state
+
+    _state.process_state(ctx)  # no result object keeps its per-call data in state shared between instances or calls
